@@ -1,6 +1,8 @@
 """C12 — Counter totals equal the number of occurrences seen so far (histories)."""
-from harness import fam_hash
+from harness import fam_hash, fam_hash2
 TRUSTED = fam_hash.TRUSTED
 ASSUME = ["keys are unique (the constructor's precondition) and |key| <= 2**62"]
-RULE = "Counter histories; " + fam_hash.RULE
-def run(R, tier, rng): fam_hash.run_family(R, tier, rng, counter=True)
+RULE = fam_hash2.RULE2 + " || " + "Counter histories; " + fam_hash.RULE
+def run(R, tier, rng):
+    fam_hash2.run_family2(R, tier, rng, True)
+    fam_hash.run_family(R, tier, rng, counter=True)
